@@ -8,6 +8,8 @@ import WalrusVerif.Model.Quirks
 import WalrusVerif.Model.Frame
 import WalrusVerif.Model.AEng
 import WalrusVerif.Model.AEngR
+import WalrusVerif.Model.Header
+import WalrusVerif.Model.Fnv
 /-!
 `wdriver`: line-protocol driver.  One request per line on stdin, one reply per line on stdout.
 It runs the very definitions the theorems in `WalrusVerif/Props` are about.
@@ -24,6 +26,18 @@ def handlePure (toks : List String) : Option String :=
     match Hex.decodeStr t, n.toNat? with
     | some topic, some seg => some (Hex.encodeStr (WalKey.walKey topic seg))
     | _, _ => some "bad-op"
+  | ["fnv", h] =>
+    match (if h = "-" then some [] else Hex.decodeBytes h.toList) with
+    | some bs => some (toString (Fnv.checksum64 bs).toNat)
+    | none => some "bad-op"
+  | ["hdr", n] =>
+    match n.toNat? with
+    | some k =>
+      let (len, r) := Header.encoded k
+      some (s!"metalen={len} repr=" ++ match r with
+        | .inline l => s!"inline:{l}"
+        | .outOfLine l rel => s!"ool:{l}:{rel}")
+    | none => some "bad-op"
   | ["parsekey", k] =>
     match Hex.decodeStr k with
     | some key =>
